@@ -288,4 +288,63 @@ theorem peaks_frequency_edges (freq : List Rat) (rs : List (Nat × Nat)) (out : 
 
 example : rangesToFreq [0, 1/2, 1, 3/2, 2] [(1, 2), (4, 4)] = some [(1/2, 3/2), (2, 5/2)] := by decide +kernel
 
+/-! ## the one-sided power spectral density (`ℝ` reading of the `RealLike` formulas) -/
+
+section psd
+
+/-- **psd_scale.**  Scaling the signal by `a` scales every bin of the (windowed or not) spectrum by `a²`. -/
+theorem psd_scale (a fs : ℝ) (x : List ℝ) (npw : Nat) :
+    psdPower (x.map (a * ·)) fs npw = (psdPower x fs npw).map (a * a * ·) := by
+  unfold psdPower
+  simp only [demean_map_mul, chunks_map, List.map_map]
+  have h : (rfftSq ∘ List.map (a * ·)) = (List.map (a * a * ·)) ∘ (rfftSq : List ℝ → List ℝ) := by
+    funext l; exact rfftSq_map_mul a l
+  rw [h, ← List.map_map, meanRows_map_mul, List.map_map]
+  apply List.map_congr_left
+  intro v _
+  simp only [Function.comp]; ring
+
+/-- **psd_shift_invariant.**  Adding a constant to the signal leaves the spectrum unchanged (the mean is
+    removed before anything else, for every window length). -/
+theorem psd_shift_invariant (c fs : ℝ) (x : List ℝ) (npw : Nat) :
+    psdPower (x.map (· + c)) fs npw = psdPower x fs npw := by
+  unfold psdPower
+  rw [demean_map_add]
+
+/-- **frequency_axis.**  `rfftfreq(N_w, 1/fs)`: bin `k` is at `k·fs/N_w` for `0 ≤ k ≤ ⌊N_w/2⌋`. -/
+theorem frequency_axis (fs : ℝ) (hfs : fs ≠ 0) (npw : Nat) :
+    psdFreq fs npw = (List.range (npw / 2 + 1)).map fun (k : ℕ) => (k : ℝ) * fs / (npw : ℝ) := by
+  unfold psdFreq rfftfreq
+  show List.map _ _ = _
+  apply List.map_congr_left
+  intro k _
+  simp only [ofNat'_real, one_lit]
+  by_cases hn : (npw : ℝ) = 0
+  · simp [hn]
+  · field_simp
+
+example : (psdFreq (10 : ℝ) 4).length = 3 := by simp [psdFreq, rfftfreq]
+
+/-- the spectrum has as many power bins as frequency bins: `⌊N_w/2⌋ + 1` -/
+theorem psd_lengths (fs : ℝ) (x : List ℝ) (npw : Nat) :
+    (psdPower x fs npw).length = npw / 2 + 1 ∧ (psdFreq fs npw).length = npw / 2 + 1 := by
+  simp [psdPower, psdFreq, rfftfreq, meanRows]
+
+/-- **bin_width.**  `frequency_bin_width` of a spectrum made of `nc ≥ 1` windows of `npw` points is
+    `fs/N_w`, and block averaging by `k` multiplies it by `k`. -/
+theorem bin_width (s : Spec) (npw nc : Nat) (hnc : nc ≠ 0) (h1 : s.totalSampledUsed = npw * nc)
+    (h2 : s.nppb = nc) (k : Nat) :
+    s.binWidth = s.sampleRate / (npw : Rat) ∧ (s.downsampledBy k).binWidth = s.binWidth * (k : Rat) := by
+  have hq : (nc : Rat) ≠ 0 := by exact_mod_cast hnc
+  constructor
+  · unfold Spec.binWidth
+    rw [h1, h2]
+    by_cases hn : (npw : Rat) = 0
+    · simp [hn]
+    · push_cast; field_simp
+  · unfold Spec.binWidth Spec.downsampledBy
+    push_cast; ring
+
+end psd
+
 end Verif.C10
